@@ -461,7 +461,9 @@ class Check:
         return True
 
     def finish(self, extra_wall=0.0):
-        os.makedirs(EVID, exist_ok=True)
+        # checks that extend the specification beyond the listed properties (ids X..) keep their records apart
+        evid = EVID if not self.prop.startswith("X") else os.path.join(os.path.dirname(EVID), "extras")
+        os.makedirs(evid, exist_ok=True)
         cov = dict(self.cov)
         if self.known:
             cov["known_findings_hit"] = self.known
@@ -473,7 +475,7 @@ class Check:
         ev = {"property_id": self.prop, "tier": tier(), "seed": seed(), "level": self.level, "coverage": cov,
               "assumptions": self.assumptions, "wall_s": round(time.time() - self.t0 + extra_wall, 2),
               "violations": self.violations}
-        with open(os.path.join(EVID, self.prop + ".json"), "w") as f:
+        with open(os.path.join(evid, self.prop + ".json"), "w") as f:
             json.dump(ev, f, indent=1, default=str)
         return 1 if self.violations else 0
 
